@@ -7,6 +7,7 @@
 
 use crate::util::Rng;
 use bytes::Bytes;
+use std::sync::Arc;
 use std::time::Duration;
 
 fn pat(tag: usize, off: usize) -> u8 {
@@ -161,12 +162,22 @@ pub fn run(seed: u64) -> String {
 struct SlowRead<T> {
     io: T,
     spin_us: u64,
+    /// rendezvous with the task that drops the last handle: 0 idle, 1 armed, 2 the connection task is inside a read
+    /// (i.e. inside `poll`, before it has registered its waker again), 3 the handle has been dropped
+    gate: Arc<std::sync::atomic::AtomicU8>,
 }
 
 impl<T: tokio::io::AsyncRead + Unpin> tokio::io::AsyncRead for SlowRead<T> {
     fn poll_read(mut self: std::pin::Pin<&mut Self>, cx: &mut std::task::Context<'_>, buf: &mut tokio::io::ReadBuf<'_>) -> std::task::Poll<std::io::Result<()>> {
         let r = std::pin::Pin::new(&mut self.io).poll_read(cx, buf);
-        if r.is_pending() && self.spin_us > 0 {
+        use std::sync::atomic::Ordering::SeqCst;
+        if r.is_pending() && self.gate.compare_exchange(1, 2, SeqCst, SeqCst).is_ok() {
+            // hold the connection task inside its poll until the other thread has dropped the handle
+            let t0 = std::time::Instant::now();
+            while self.gate.load(SeqCst) != 3 && t0.elapsed() < Duration::from_millis(20) {
+                std::hint::spin_loop();
+            }
+        } else if r.is_pending() && self.spin_us > 0 {
             let t0 = std::time::Instant::now();
             while t0.elapsed() < Duration::from_micros(self.spin_us) {
                 std::hint::spin_loop();
@@ -217,7 +228,9 @@ pub fn run_idle(seed: u64) -> String {
                         }
                     }
                 });
-                let (mut sr, conn) = h2::client::handshake(SlowRead { io: cio, spin_us: spin }).await.map_err(|e| format!("client hs {:?}", e))?;
+                let gate = Arc::new(std::sync::atomic::AtomicU8::new(0));
+                let rendezvous = t % 2 == 0;
+                let (mut sr, conn) = h2::client::handshake(SlowRead { io: cio, spin_us: spin, gate: gate.clone() }).await.map_err(|e| format!("client hs {:?}", e))?;
                 let cdrv = tokio::spawn(async move { conn.await });
                 let req = http::Request::builder().uri("http://example.com/").body(()).unwrap();
                 let (rf, _ss) = sr.send_request(req, true).map_err(|e| format!("send_request {:?}", e))?;
@@ -229,21 +242,35 @@ pub fn run_idle(seed: u64) -> String {
                 }
                 drop(_ss);
                 // the stream is finished; what is left are two handles, dropped from two other tasks at (almost) the same time
+                let g1 = gate.clone();
                 let a = tokio::spawn(async move {
                     if order == 1 {
                         tokio::task::yield_now().await;
                     }
+                    if rendezvous {
+                        g1.store(1, std::sync::atomic::Ordering::SeqCst);
+                    }
                     drop(body);
                 });
+                let g2 = gate.clone();
                 let b = tokio::spawn(async move {
+                    use std::sync::atomic::Ordering::SeqCst;
                     if order == 2 {
                         tokio::task::yield_now().await;
                     }
                     let t0 = std::time::Instant::now();
-                    while t0.elapsed() < Duration::from_micros(delay_us) {
-                        std::hint::spin_loop();
+                    if rendezvous {
+                        // wait until the connection task is inside the poll that the other drop has caused
+                        while g2.load(SeqCst) != 2 && t0.elapsed() < Duration::from_millis(50) {
+                            std::hint::spin_loop();
+                        }
+                    } else {
+                        while t0.elapsed() < Duration::from_micros(delay_us) {
+                            std::hint::spin_loop();
+                        }
                     }
                     drop(sr);
+                    g2.store(3, SeqCst);
                 });
                 let _ = a.await;
                 let _ = b.await;
